@@ -1,6 +1,6 @@
 (* C33 — A failed run never changes the served data. *)
 From Coq Require Import List NArith ZArith Bool.
-From RV Require Import C11.Model C13.Model C15.Model C15.Proofs C15.Spec C15.SpecProofs.
+From RV Require Import C11.Model C13.Model C15.Model C15.Proofs C15.Spec C15.SpecProofs C33.FaultModel C33.FaultProofs C33.FaultSpec.
 Import ListNotations.
 Local Open Scope N_scope.
 
@@ -20,6 +20,25 @@ Theorem C33_model_satisfies_spec : forall c, c_keep c < H31 -> N.of_nat (length 
   inputs_ok c = true -> probes_ok (srv_init (c_keep c)) (c_cycles c) -> spec_okb (model_case c) = true.
 Proof. exact model_satisfies_spec. Qed.
 
+(* ---- the premise side: a run during which a fatal error occurs IS a run that fails ----
+   Task loop of Run::process (coq/C33/FaultModel.v; one validation thread; which task fails is an input):
+   for every forest of TAL and CA tasks and every choice of deferred children, the run's result is a
+   failure exactly when some task of the run fails, and a successful run processed every publication point *)
+Theorem C33_fatal_error_fails_run : forall q, run_result true q = (if qfail q then 2 else 0)%nat.
+Proof. exact run_result_spec. Qed.
+
+Theorem C33_successful_run_is_complete : forall q n',
+  loop (S (qsize q)) true q false 0 = Some (false, n') -> qfail q = false /\ n' = qpoints q.
+Proof. exact successful_run_is_complete. Qed.
+
+(* the code before "fix: fail the run when a trust anchor cannot be loaded or stored": a trust anchor that
+   cannot be loaded ends the run successfully without the remaining TALs *)
+Theorem C33_old_tal_failure_refuted :
+  let q := [TTal true None; TTal false (Some (CT false [(false, CT false [])]))] in
+  run_result false q = 0%nat /\ loop (S (qsize q)) false q false 0 = Some (false, 0%nat) /\ qpoints q = 2%nat /\
+  run_result true q = 2%nat.
+Proof. exact old_code_refuted. Qed.
+
 Example C33_nonvacuous :
   let a := {| origins := [(1, tt)]; rkeys := []; aspas := [] |} in
   let b := {| origins := [(2, tt)]; rkeys := []; aspas := [] |} in
@@ -29,3 +48,4 @@ Example C33_nonvacuous :
 Proof. split; reflexivity. Qed.
 
 Check C33_failures_erased : forall s rs, run_cycles s rs = run_cycles s (filter r_ok rs).
+Check C33_fatal_error_fails_run : forall q, run_result true q = (if qfail q then 2 else 0)%nat.
